@@ -298,7 +298,10 @@ MANIFEST = {
                  "histories (embedded TestERC20, TestERC20TransferWithFee, TestERC20MaliciousTransfer, a returns-false "
                  "ERC20, a forwarder contract producing reverted sub-frames) and comparing after EVERY transaction the "
                  "registry, totalSupply, balanceOf(module), bank supply, module escrow and the actors' balances; the "
-                 "proved-sound checker Pb is evaluated on the observed numbers themselves. 12 seeded code changes "
+                 "proved-sound checker Pb is evaluated on the observed numbers themselves; in addition the step lists of the "
+                 "seven bridge paths, the Transfer helper, the creation guards and the bank-wrapper syncs are re-extracted "
+                 "from the source and must equal the lists the model's operations are proved to be (C06_paths_match_model, "
+                 "C06_holds_for_current_tree, …). 12 seeded code changes "
                  "(mint amount instead of measured, forgotten burn, missing escrow, removed duplicate check, wrong "
                  "recipient, off-by-one, ignored success flag, …) are each detected; a harmless refactor is not."),
         "design_ref": "DESIGN.md §5 C06",
@@ -310,8 +313,10 @@ MANIFEST = {
                    "fee is modelled, but gas payments are not (gas payers' unibi balances are not compared, unibi supply is "
                    "compared relative to the rest of genesis). Atomicity of reverted frames is a "
                    "definition in the model (C04 carries the theorem) and is CHECKED against the implementation on sub-frame "
-                   "reverts, top-level reverts, swallowed failures and out-of-gas. No generated facts (nothing "
-                   "configuration-like). Trusted: Coq kernel + vm_compute, the Go driver and its canonicalisation, two "
+                   "reverts, top-level reverts, swallowed failures and out-of-gas. Generated facts (go/ast extractor harness/gen/c06): the "
+                   "ordered ledger operations of the seven bridge paths with parties and requested-vs-measured amounts, the shape "
+                   "of ERC20().Transfer, the CreateFunToken guards by index, the StateDB syncs of every bank wrapper; obligations "
+                   "in Gen/C06Oblig.v equate them with the step lists the model's operations are proved to be. Trusted: Coq kernel + vm_compute, the Go driver and its canonicalisation, two "
                    "hand-assembled contracts (forwarder, returns-false ERC20; listings in coq/C06/README.md), check.py."),
     "technique": ("Coq proof: inductive invariant over operation histories, parametric in ERC20 transfer behaviour; "
                   "differential correspondence of the executable model against DeliverTx traces; Pb on observed traces"),
